@@ -18,6 +18,29 @@ def load_grammar() -> str:
     return (_here / "ode.lark").read_text()
 
 
+class LineBreaksInsideParentheses:
+    """A line break between an opening parenthesis and its closing one ends nothing
+    (as in Python), so that an expression or a list of states / parameters can be
+    continued on the next line at any token inside the parentheses, not only
+    after an operator, a comma or the opening parenthesis.
+    """
+
+    always_accept = ()
+
+    def process(self, stream):
+        depth = 0
+        for token in stream:
+            if token.type == "LPAR":
+                depth += 1
+            elif token.type == "RPAR":
+                depth = max(depth - 1, 0)
+            elif token.type == "NEWLINE" and depth > 0:
+                continue
+            yield token
+
+
 class Parser(Lark):
     def __init__(self, *args, **kwargs) -> None:
+        if kwargs.get("parser") == "lalr":
+            kwargs.setdefault("postlex", LineBreaksInsideParentheses())
         super().__init__(load_grammar(), *args, **kwargs)
